@@ -179,11 +179,32 @@ def replay(p):
 
 
 def validate(traces, scratch, parts=6):
-    from .. import tlc
+    import os
+    from concurrent.futures import ThreadPoolExecutor
+    from .. import tlc, encode
+    from . import acct
     if not traces:
         return {}, []
     slim = [{"id": t["id"], "hdr": t["hdr"], "init": t["init"], "ev": t["ev"]} for t in traces]
-    return tlc.validate_traces("TraceSpotDec", "TraceSpotDec.cfg", slim, scratch, parts=parts)
+    parts = max(1, min(parts, len(slim)))
+    jobs = []
+    for pi in range(parts):
+        pd = os.path.join(scratch, "tv-dec-%d-%d" % (pi, len(os.listdir(scratch))))
+        os.makedirs(pd, exist_ok=True)
+        path = os.path.join(pd, "traces.json")
+        encode.dump({"traces": slim[pi::parts]}, path)
+        jobs.append(dict(module="TraceSpotDec", cfg_file="TraceSpotDec.cfg", workers=1, env={"TRACE_FILE": path},
+                         scratch=pd, timeout=1500, allow_violation=False, heap=acct.HEAP))
+    with ThreadPoolExecutor(max_workers=acct.MAXJVM) as ex:
+        results = list(ex.map(lambda j: tlc.run(**j), jobs))
+    verdicts = {}
+    for r in results:
+        for t in tlc.tagged(r, "VERDICT"):
+            verdicts[t[1]] = tuple(t[2:])
+    missing = [t["id"] for t in traces if t["id"] not in verdicts]
+    if missing:
+        raise Machinery("no verdict for %d decimal traces (first ids %s)\n%s" % (len(missing), missing[:5], results[0].raw[-2000:]))
+    return verdicts, results
 
 
 def report(ctx, pid, traces, verdicts):
